@@ -6,6 +6,7 @@
 package refv6
 
 import (
+	"bytes"
 	"fmt"
 
 	"verif/ref/reflabel"
@@ -520,6 +521,111 @@ func LenOffsets(b []byte) []int {
 		}
 	}
 	walkMsg(0, b)
+	return out
+}
+
+// LenPaths is LenOffsets with context: for every length field it returns the offsets of the length fields of all
+// enclosing options (outermost first) followed by its own, so that an item can be resized consistently.
+func LenPaths(b []byte) [][]int {
+	var out [][]int
+	var walkMsg func(base int, p []byte, path []int)
+	var walkOpts func(base int, p []byte, sp Space, path []int)
+	ext := func(path []int, off int) []int { return append(append([]int{}, path...), off) }
+	items := func(base int, p []byte, path []int) {
+		for i := 0; i+2 <= len(p); {
+			out = append(out, ext(path, base+i))
+			i += 2 + (int(p[i])<<8 | int(p[i+1]))
+		}
+	}
+	walkOpts = func(base int, p []byte, sp Space, path []int) {
+		for i := 0; i+4 <= len(p); {
+			code := uint16(p[i])<<8 | uint16(p[i+1])
+			l := int(p[i+2])<<8 | int(p[i+3])
+			mine := ext(path, base+i+2)
+			out = append(out, mine)
+			end := i + 4 + l
+			if end > len(p) {
+				end = len(p)
+			}
+			body := p[i+4 : end]
+			bo := base + i + 4
+			if sp == Top {
+				skip := -1
+				switch Known[code] {
+				case "iana", "iapd":
+					skip = 12
+				case "iata":
+					skip = 4
+				case "iaaddr":
+					skip = 24
+				case "iaprefix":
+					skip = 25
+				case "4rd":
+					skip = 0
+				}
+				switch {
+				case skip >= 0 && len(body) >= skip:
+					walkOpts(bo+skip, body[skip:], Top, mine)
+				case Known[code] == "vendoropts" && len(body) >= 4:
+					walkOpts(bo+4, body[4:], Vendor, mine)
+				case Known[code] == "ntp":
+					walkOpts(bo, body, NTP, mine)
+				case Known[code] == "relaymsg":
+					walkMsg(bo, body, mine)
+				case Known[code] == "userclass" || Known[code] == "bootfileparam":
+					items(bo, body, mine)
+				case Known[code] == "vendorclass" && len(body) >= 4:
+					items(bo+4, body[4:], mine)
+				}
+			}
+			i += 4 + l
+		}
+	}
+	walkMsg = func(base int, p []byte, path []int) {
+		if len(p) == 0 {
+			return
+		}
+		h := 4
+		if p[0] == 12 || p[0] == 13 {
+			h = 34
+		}
+		if len(p) >= h {
+			walkOpts(base+h, p[h:], Top, path)
+		}
+	}
+	walkMsg(0, b, nil)
+	return out
+}
+
+// Resize grows (delta > 0, filling with fill) or shrinks (delta < 0) the payload of the item whose length field path
+// ends in path[len(path)-1], at its end, and adds delta to the length field of the item and of every enclosing option,
+// so that everything still tiles: what changes is only that one item now has another size. nil when impossible.
+func Resize(b []byte, path []int, delta int, fill byte) []byte {
+	if len(path) == 0 {
+		return nil
+	}
+	own := path[len(path)-1]
+	if own+2 > len(b) {
+		return nil
+	}
+	l := int(b[own])<<8 | int(b[own+1])
+	end := own + 2 + l
+	if end > len(b) || l+delta < 0 {
+		return nil
+	}
+	var out []byte
+	if delta >= 0 {
+		out = append(append(append([]byte{}, b[:end]...), bytes.Repeat([]byte{fill}, delta)...), b[end:]...)
+	} else {
+		out = append(append([]byte{}, b[:end+delta]...), b[end:]...)
+	}
+	for _, off := range path {
+		v := (int(out[off])<<8 | int(out[off+1])) + delta
+		if v < 0 || v > 0xffff {
+			return nil
+		}
+		out[off], out[off+1] = byte(v>>8), byte(v)
+	}
 	return out
 }
 
